@@ -74,6 +74,7 @@ class Contract:
         # view=True: an assumed, sidecar-local restatement of a callee's contract over opaque values (used only by the
         # functions of this sidecar; the registry keeps the real contract of the target)
         self.view = bool(_kw(deco, 'view', False))
+        self.mask_triggers = bool(_kw(deco, 'mask_triggers', False))   # extra E-matching triggers for boolean-mask selections
         self.allows_nonfinite = bool(_kw(deco, 'nonfinite', False))      # the documented result may be nan (stated by an ensures)
         a = fd.args
         self.param_names = [x.arg for x in a.posonlyargs + a.args + a.kwonlyargs]
@@ -328,6 +329,7 @@ def verify_function(c, registry, feas_timeout=300):
         return rep
     eng = Engine(mod, fd, c.target, registry, feas_timeout=feas_timeout)
     eng.sidecar = c.sidecar           # sidecar-local view contracts of callees
+    eng.mask_triggers = getattr(c, 'mask_triggers', False)
     eng.default_props = c.props
     st = St()
     env = {}
@@ -431,6 +433,13 @@ def verify_function(c, registry, feas_timeout=300):
         rep.trusted_facts = set(eng.trusted_facts)
     except OutOfSubset as ex:
         rep.status, rep.detail = 'out-of-subset', str(ex)
+        rep.obligations = []
+    except TypeError as ex:
+        if 'no z3 rendering' not in str(ex):
+            raise
+        # a container reached a place where the contract of a callee expects an opaque / scalar value: the code is outside
+        # what this contract set can follow (undecided, not a checker crash)
+        rep.status, rep.detail = 'out-of-subset', 'value of an unexpected shape reaches a contract boundary: %s' % ex
         rep.obligations = []
     return rep
 
